@@ -4,7 +4,9 @@
 set -u
 patch="$(realpath "$1")"; shift
 # one user of /repo's working tree at a time
+touch /dev/shm/verif-repo.want.$$
 exec 9>/dev/shm/verif-repo.lock; flock 9
+rm -f /dev/shm/verif-repo.want.$$
 export VERIF_REPO_LOCKED=1
 git -C /repo apply "$patch" || { echo "patch does not apply"; exit 3; }
 trap 'git -C /repo checkout -- . ; git -C /repo clean -fdq -e target >/dev/null 2>&1' EXIT
